@@ -1,11 +1,14 @@
 """c02 — generated Flow code against the flow semantics; see gen_common.py."""
+import coq_cases
 import gen_common
 
-DEP_FILES = ["FlowSemModel.v", "FlowOpModel.v", "FlowOpProofs.v", "FlowBridge.v"]
+DEP_FILES = ["FlowSemModel.v", "FlowOpModel.v", "FlowOpProofs.v", "FlowBridge.v", "FlowAdequacy.v", "FlowComplete.v"]
 PID = "C02"
 
 
 def run(chk):
     chk.recheck_proofs()
-    gen_common.apply(chk, PID)
+    s = gen_common.apply(chk, PID)
+    if s.get("coqcases"):
+        coq_cases.check(chk, [tuple(c) for c in s["coqcases"]])
     chk.assumptions += gen_common.ASSUMPTIONS
